@@ -1,6 +1,6 @@
 """C25 -- signal names and numbers form a stable one-to-one registry, even under threads."""
 import miros.event as EV
-from vt import detsched as ds, sysx
+from vt import detsched as ds, sysx, osback
 
 ID = 'C25'
 ENGINE = 'detsched'
@@ -12,10 +12,10 @@ RULE = ('(sequential part) random name sequences registered through append, attr
         'build events by number on a FRESH SignalSource substituted for miros.event.signals, with detsched switching at every bytecode '
         'boundary inside miros/event.py (seeded random / PCT); any exception in a thread, any pair of names sharing a number, any number '
         'that differs between two observations, or an Event whose (signal, signal_name) pair disagrees with the final registry is a '
-        'violation. ' + sysx.RULE_TEXT % (1, 2) + 'distinct_nontrivial = distinct context-switch sequences with >= 2 threads registering')
+        'violation. Every twentieth case repeats the concurrent part on REAL threads with the real primitives (vt/osback.py: nothing substituted, switch interval 1 us, random yields at line starts of miros code). ' + sysx.RULE_TEXT % (1, 2) + 'distinct_nontrivial = distinct context-switch sequences with >= 2 threads registering')
 CASES = {'quick': 1500, 'thorough': 100000}
 BUDGET = {'quick': 150, 'thorough': 600}
-REQUIRE = {'concurrent_runs': 500, 'sequential_ops': 10000, 'concurrent_registrations': 3000, 'systematic_schedules': 500, 'systematic_scenarios_exhausted': 2}
+REQUIRE = {'concurrent_runs': 500, 'sequential_ops': 10000, 'concurrent_registrations': 3000, 'systematic_schedules': 500, 'systematic_scenarios_exhausted': 2, 'os_backend_runs': 40}
 ASSUME = ['each scheduled run works on a fresh SignalSource (the registry only grows; opcode-level runs over a large registry are too slow)']
 ANNOUNCE_CASES = True
 BUILTINS = ['ENTRY_SIGNAL', 'EXIT_SIGNAL', 'INIT_SIGNAL', 'REFLECTION_SIGNAL', 'EMPTY_SIGNAL', 'SEARCH_FOR_SUPER_SIGNAL',
@@ -102,7 +102,63 @@ SYS = {'quick': (8, 1, 3000, 75.0), 'thorough': (32, 2, 100000, 150.0)}     # sy
 
 
 def run_case(ctx, n):
+  if n % 20 == 19:
+    return os_case(ctx, n)
   sysx.run_case(ctx, n, SYS, scenario)
+
+
+def os_case(ctx, n):
+  """second opinion on real threads with the real primitives (vt/osback.py): nothing substituted, interleavings perturbed"""
+  rng = ctx.rng('os', n)
+  nthreads = rng.randint(2, 6)
+  pool = ['N%d' % i for i in range(rng.randint(2, 5))]
+  plans = [[(rng.choice(['append', 'attr', 'event', 'event+number']), rng.choice(pool) if rng.random() < 0.8 else 'T%d_%d' % (t, rng.randrange(3)))
+            for _ in range(rng.randint(2, 8))] for t in range(nthreads)]
+  saved = fresh_registry()
+  obs = []
+  try:
+    sig = EV.signals
+
+    def worker(i, plan):
+      for route, nm in plan:
+        if route == 'append':
+          sig.append(nm)
+          obs.append((i, nm, sig[nm], 'append'))
+        elif route == 'attr':
+          obs.append((i, nm, getattr(sig, nm), 'attr'))
+        else:
+          e = EV.Event(signal=nm)
+          obs.append((i, e.signal_name, e.signal, 'event'))
+          if e.signal_name != nm:
+            obs.append((i, nm, None, 'event-name-mismatch:%r' % e.signal_name))
+          if route == 'event+number':
+            e2 = EV.Event(signal=e.signal)
+            if e2.signal_name != nm:
+              obs.append((i, nm, e.signal, 'number-resolves-to:%r' % e2.signal_name))
+    with osback.Perturb(rng.randrange(1 << 30), p_yield=rng.choice([0.1, 0.3, 0.6])) as P:
+      finished, excs = osback.run_threads([(worker, (i, pl)) for i, pl in enumerate(plans)])
+    ctx.count('os_backend_yields_injected', P.nyields)
+    if not finished:
+      ctx.count('os_backend_inconclusive')
+      return
+    ctx.count('os_backend_runs')
+    wit = {'backend': 'os threads', 'plans': plans, 'observations': obs[:40], 'final_registry': dict(list(sig.items())[10:])}
+    if excs:
+      ctx.violation('C25/exception-in-thread', 'real threads: a thread using the registry died: %r' % excs, wit)
+      return
+    vals = list(sig.values())
+    if len(set(vals)) != len(vals):
+      ctx.violation('C25/two-names-one-number', 'real threads: names share a number: %r' % [(k, v) for k, v in sig.items() if vals.count(v) > 1], wit)
+      return
+    for (i, nm, num, how) in obs:
+      if ':' in how:
+        ctx.violation('C25/event-pair-under-threads', 'real threads: thread %d: %s for name %r (number %r)' % (i, how, nm, num), wit)
+        return
+      if sig.get(nm) != num:
+        ctx.violation('C25/number-changed', 'real threads: thread %d observed %r -> %r via %s, the registry now says %r' % (i, nm, num, how, sig.get(nm)), wit)
+        return
+  finally:
+    EV.signals = saved
 
 
 def scenario(ctx, n):
